@@ -53,6 +53,7 @@ struct UniqueGuard
 #define RLBOX_ACQUIRE_UNIQUE_GUARD(name, ...) simlock::UniqueGuard name(__VA_ARGS__)
 
 #include "../sim/world_common.hpp"
+#include "rlbox_dylib_sandbox.hpp"
 #include "rlbox_noop_sandbox.hpp"
 #include <atomic>
 #include <memory>
@@ -60,11 +61,16 @@ struct UniqueGuard
 
 #ifdef RLBOX_EMBEDDER_PROVIDES_TLS_STATIC_VARIABLES
 RLBOX_NOOP_SANDBOX_STATIC_VARIABLES();
+RLBOX_DYLIB_SANDBOX_STATIC_VARIABLES();
+#endif
+#ifndef GUESTLIB_DIR
+#  define GUESTLIB_DIR "build"
 #endif
 
 using namespace sim;
 using SimSbx = rlbox::rlbox_sim_sandbox;
 using NoopSbx = rlbox::rlbox_noop_sandbox;
+using DylibSbx = rlbox::rlbox_dylib_sandbox;
 
 // ---- ThreadSanitizer report hook (never called in the plain build) ----
 static std::atomic<int> g_tsan_reports{ 0 };
@@ -89,6 +95,9 @@ extern "C" __attribute__((used, visibility("default"))) const char* __tsan_defau
 extern "C" {
 long g_multi(long (*cb)(long, unsigned), long a, unsigned b, int times);
 int g_lib_id(void);
+int g_lib_id_indirect(void);
+int g_bump(void);
+void g_reset(void);
 }
 // noop "guest": host code in this TU so that it can offer the token between callback calls
 static long n_multi(long (*cb)(long, unsigned), long a, unsigned b, int times)
@@ -134,10 +143,11 @@ enum Kind
   T_YIELD,
   T_SHARED_REG,
   T_SHARED_UNREG,
+  T_DYLIB,
   K_COUNT
 };
 static const char* kKind[] = { "create", "destroy", "ptr_roundtrip", "register", "unregister", "invoke_cb", "invoke_id", "malloc_free", "yield",
-                               "shared_register", "shared_unregister" };
+                               "shared_register", "shared_unregister", "dylib_instance" };
 
 // per-thread record of what callbacks saw
 struct CbSeen
@@ -245,6 +255,11 @@ static void thread_body(int tid, const std::vector<Op>& ops, ThreadResult& R)
   SB S[2];
   for (auto& s : S)
     s.sb = std::make_unique<Sandbox>();
+  // threads 0..3 also own an instance of the real dylib plug-in, each on a library file of its own
+  // (the four files export the same symbols)
+  std::unique_ptr<rlbox::rlbox_sandbox<DylibSbx>> dsb;
+  bool dsb_created = false;
+  int dsb_count = 0;
   auto viol = [&](const char* cls, const char* detail) {
     Violation v;
     v.prop = "C18";
@@ -413,6 +428,49 @@ static void thread_body(int tid, const std::vector<Op>& ops, ThreadResult& R)
         }
         break;
       }
+      case T_DYLIB: {
+        if (tid > 3)
+          break;
+        static const char* const kLibs[4] = { GUESTLIB_DIR "/libguest0.so", GUESTLIB_DIR "/libguest1.so", GUESTLIB_DIR "/libguest2.so", GUESTLIB_DIR "/libguest3.so" };
+        int what = (int)((uint64_t)op.a[2] % 8);
+        if (!dsb_created) {
+          if (!dsb)
+            dsb = std::make_unique<rlbox::rlbox_sandbox<DylibSbx>>();
+          Outcome o = attempt([&] {
+            dsb->create_sandbox(kLibs[tid]);
+            dsb->invoke_sandbox_function(g_reset);
+          });
+          if (o != OK) {
+            viol("create_fails@dylib_instance", g_last_abort_msg.c_str());
+            break;
+          }
+          dsb_created = true;
+          dsb_count = 0;
+          c.probe("dylib_instance_per_thread");
+        } else if (what == 0) {
+          Outcome o = attempt([&] { dsb->destroy_sandbox(); });
+          dsb_created = false;
+          if (o != OK)
+            viol("destroy_fails@dylib_instance", g_last_abort_msg.c_str());
+          break;
+        }
+        int id = -1, id2 = -1, n1 = -1, n2 = -1;
+        Outcome o = attempt([&] {
+          id = dsb->invoke_sandbox_function(g_lib_id).UNSAFE_unverified();
+          n1 = dsb->invoke_sandbox_function(g_bump).UNSAFE_unverified();
+          simsched::yield("between_dylib_calls");
+          id2 = dsb->invoke_sandbox_function(g_lib_id_indirect).UNSAFE_unverified();
+          n2 = dsb->invoke_sandbox_function(g_bump).UNSAFE_unverified();
+        });
+        if (o != OK)
+          viol("invoke_fails@dylib_instance", g_last_abort_msg.c_str());
+        else if (id != tid || id2 != tid)
+          viol("wrong_library@dylib_instance", "a function of this thread's library instance ran code of another instance's library");
+        else if (n1 != dsb_count + 1 || n2 != dsb_count + 2)
+          viol("library_state_shared_between_instances@dylib_instance", "the library's own counter moved by something else than this thread's calls");
+        dsb_count += 2;
+        break;
+      }
       case T_SHARED_UNREG: {
         int f = (int)((uint64_t)op.a[2] % 3);
         if (!g_shared || !R.shared_own[f])
@@ -434,6 +492,9 @@ static void thread_body(int tid, const std::vector<Op>& ops, ThreadResult& R)
   }
   for (auto& s : S)
     s.sb.reset();
+  if (dsb_created)
+    attempt([&] { dsb->destroy_sandbox(); });
+  dsb.reset();
   graveyard_release();
   g_regions.clear();
   t_cbseen = nullptr;
@@ -458,7 +519,13 @@ struct ThreadsWorld : World
     int shared = r.chance(1, 3);
     p.cfg = { nthreads, bias, mix, (int64_t)(r.next() >> 2), (int64_t)r.below(2), shared };
     int n = (int)r.range(6, thorough ? 60 : 36);
-    std::vector<unsigned> w = { 10, 6, 12, 6, 3, 10, 5, 4, 2, (unsigned)(shared ? 16 : 0), (unsigned)(shared ? 10 : 0) };
+    std::vector<unsigned> w = { 10, 6, 12, 6, 3, 10, 5, 4, 2, (unsigned)(shared ? 16 : 0), (unsigned)(shared ? 10 : 0), (unsigned)(r.chance(1, 2) ? 8 : 0) };
+    if (shared && r.chance(1, 2)) {
+      // swarm mode "registration focus": (almost) nothing but registrations and releases on the shared sandbox, so that
+      // several threads are inside register_callback / unregister_callback of the same function at the same time
+      w = { 0, 0, 1, 0, 0, 1, 0, 0, 2, 20, 16, 0 };
+      n = (int)r.range(20, thorough ? 90 : 60);
+    }
     // every thread starts by creating a sandbox
     for (int t = 0; t < nthreads; t++) {
       Op o;
